@@ -20,6 +20,7 @@ import (
 	"testing"
 	"time"
 
+	"github.com/wader/fq/pkg/bitio"
 	"github.com/wader/fq/pkg/decode"
 	"github.com/wader/fq/pkg/interp"
 	"github.com/wader/fq/verif/lib/fqx"
@@ -329,10 +330,36 @@ type caseT struct {
 	Force  bool   `json:"force"`
 	Mut    mut    `json:"mut"`
 	Main   string `json:"main,omitempty"` // "", "dv", "V", "torepr"
+	// Chunk > 0: the bytes are handed to the decoder as a concatenation of parts
+	// of this many bytes (bitio.MultiReader, what `[a, b] | tobytes | decode`
+	// builds): reads are short at part boundaries
+	Chunk int `json:"chunk,omitempty"`
 }
 
 func (c caseT) desc() string {
+	if c.Chunk > 0 {
+		return fmt.Sprintf("%s|%s|%v|%s|%s|chunk%d", c.Path, c.Format, c.Force, c.Mut, c.Main, c.Chunk)
+	}
 	return fmt.Sprintf("%s|%s|%v|%s|%s", c.Path, c.Format, c.Force, c.Mut, c.Main)
+}
+
+func chunked(data []byte, chunk int) bitio.ReaderAtSeeker {
+	// at most 256 parts (a multi reader looks its parts up linearly)
+	if m := (len(data) + 255) / 256; chunk < m {
+		chunk = m
+	}
+	var parts []bitio.ReadAtSeeker
+	for o := 0; o < len(data); o += chunk {
+		parts = append(parts, bitio.NewBitReader(data[o:min(o+chunk, len(data))], -1))
+	}
+	if len(parts) == 0 {
+		parts = append(parts, bitio.NewBitReader(data, -1))
+	}
+	mr, err := bitio.NewMultiReader(parts...)
+	if err != nil {
+		panic(err)
+	}
+	return mr
 }
 
 func faultClass(r any) string {
@@ -462,7 +489,18 @@ func runCase(c caseT) (o outcome) {
 		return o
 	}
 	bctx := newBudgetCtx(attemptBudget)
-	v, _, err := fqx.Decode(bctx, data, c.Format, c.Force)
+	var v *decode.Value
+	var err error
+	if c.Chunk > 0 {
+		g, gerr := interp.DefaultRegistry.Group(c.Format)
+		if gerr != nil {
+			o.failed = true
+			return o
+		}
+		v, _, err = decode.Decode(bctx, chunked(data, c.Chunk), g, decode.Options{IsRoot: true, FillGaps: true, Force: c.Force, Description: "verif"})
+	} else {
+		v, _, err = fqx.Decode(bctx, data, c.Format, c.Force)
+	}
 	if err != nil {
 		o.failed = true
 	}
@@ -646,6 +684,7 @@ func TestCorpusIdentity(t *testing.T) {
 				}
 				harness.EnumAt(t.Name(), n)
 				do(t, caseT{Path: e.Path, Format: e.Format, Force: force, Mut: mut{Kind: "id"}})
+				do(t, caseT{Path: e.Path, Format: e.Format, Force: force, Mut: mut{Kind: "id"}, Chunk: int(1 + n%7)})
 			}
 		}
 	}
@@ -682,6 +721,8 @@ func mutantCase(rt *rapid.T, c *harness.Case, viaMain bool) {
 	cs.Mut = drawMut(rt, len(e.Data))
 	if viaMain {
 		cs.Main = rapid.SampledFrom([]string{"dv", "V", "torepr"}).Draw(rt, "mainkind")
+	} else if rapid.IntRange(0, 7).Draw(rt, "chunked") == 0 {
+		cs.Chunk = rapid.SampledFrom([]int{1, 2, 3, 4, 5, 7, 8, 13, 16, 64, 255, 4096}).Draw(rt, "chunk")
 	}
 	c.Set("case", cs)
 	if harness.Skipped(cs.desc()) {
@@ -695,6 +736,9 @@ func mutantCase(rt *rapid.T, c *harness.Case, viaMain bool) {
 	}
 	if cs.Main != "" {
 		c.Label("main-" + cs.Main)
+	}
+	if cs.Chunk > 0 {
+		c.Label("chunked-input")
 	}
 	if o.failed {
 		c.Label("decode-error")
